@@ -1,7 +1,7 @@
 --------------------------------- MODULE AttestTool ---------------------------------
 (***************************************************************************************)
 (* tools/attest: the guest-side command line around client.GetRawQuote / GetQuote (not   *)
-(* one of the listed properties; the last package the specification had not covered).    *)
+(* one of the listed properties).                                                        *)
 (*   ParseFlags -> ParseInput -> CheckOutform -> OpenOutput -> GetQuote -> Write         *)
 (* -in is the REPORT_DATA: empty (all zero), or at most 64 bytes in hex or base64;       *)
 (* -inform auto tries base64 first and hex second.  The output file is created only once *)
